@@ -53,6 +53,15 @@ type MTarget struct {
 	NB    null.Bool         `plenc:"30"`
 	NF    null.Float        `plenc:"31"`
 	Ts    []time.Time       `plenc:"32"`
+	PB    *bool             `plenc:"33"`
+	PF    *float64          `plenc:"34"`
+	PStr  *string           `plenc:"35"`
+	PT    *time.Time        `plenc:"36"`
+	PBs   []*bool           `plenc:"37"`
+	MPB   map[string]*bool  `plenc:"38"`
+	PU8   *uint8            `plenc:"39"`
+	PF32  *float32          `plenc:"40"`
+	PByt  *[]byte           `plenc:"41"`
 }
 
 func init() {
